@@ -138,3 +138,11 @@ CHECKS["C02"]["packages"] = ["l1chan", "l2node"]
 
 CHECKS["C09"]["packages"] = ["l1chan", "l2node"]
 CHECKS["C11"]["packages"] = ["l1chan", "l2node"]
+
+check("C17",
+      packages=["l2node"],
+      technique="explicit-state BFS with replay over interleaved stimuli on two channels of a real manager with 2 global, 1 late/removed and 1 per-transfer subscriber; stream-equality, snapshot-chain and exactly-once oracles",
+      rule="BFS (quick depth 3, thorough depth 5) over 12 stimuli x 2 channels + subscribe/unsubscribe of a third subscriber; oracle on every history: both permanent global subscribers saw the same sequence; the per-transfer subscriber saw exactly its channel's subsequence; the late subscriber saw exactly the window between subscribe and unsubscribe; consecutive snapshots of a channel differ only in fields the announced event may change; last snapshot = ChannelState; stimuli on an ongoing channel announce exactly the expected events once, in order, and invalid ones announce nothing. distinct = distinct canonical two-channel states.",
+      design_ref="DESIGN.md 5/C17",
+      level_text="exhaustive within the depth bound",
+      level_note="unsubscribe racing with a burst of events is covered by the scheduler cells")
